@@ -197,6 +197,50 @@ impl Plan {
     }
 }
 
+thread_local! {
+    /// when set, generated instructions never rely on type declarations (context-dependent literals are one word under
+    /// an undeclared type): for callers that cannot emit the declarations along with the instruction
+    pub static NO_CTX: std::cell::Cell<bool> = std::cell::Cell::new(false);
+    /// value to use for the next PARAMETER of the given enum / mask kind (kinds such as BuiltIn or FPFastMathMode occur
+    /// only as parameters of enumerants; the sweeps set this to reach every one of their values)
+    pub static FORCE_PARAM: std::cell::RefCell<Option<(String, u32)>> = std::cell::RefCell::new(None);
+}
+
+/// (kind K, value v of K, parameter kind PK): every enumerant / bit v whose parameters include an enum- or mask-kinded one
+pub fn param_kind_sites(g: &Gram) -> Vec<(String, u32, String)> {
+    let mut out = vec![];
+    for (k, kg) in &g.kinds {
+        let vals: Vec<(u32, Vec<String>)> = match kg {
+            KindG::ValueEnum { values } => values.iter().map(|v| (v.0, v.1.clone())).collect(),
+            KindG::BitEnum { bits, .. } => bits.iter().map(|b| (b.0, b.1.clone())).collect(),
+            KindG::Other => vec![],
+        };
+        for (v, ps) in vals {
+            for pk in ps {
+                if matches!(g.kinds.get(&pk), Some(KindG::ValueEnum { .. }) | Some(KindG::BitEnum { .. })) { out.push((k.clone(), v, pk)); }
+            }
+        }
+    }
+    out.sort();
+    out
+}
+/// all values worth sweeping of an enum / mask kind: every enumerant; 0, every bit and all bits
+pub fn sweep_values(g: &Gram, kind: &str) -> Vec<u32> {
+    match g.kinds.get(kind) {
+        Some(KindG::ValueEnum { values }) => values.iter().map(|v| v.0).collect(),
+        Some(KindG::BitEnum { all, bits }) => { let mut x = vec![0, *all]; x.extend(bits.iter().map(|b| b.0)); x }
+        _ => vec![],
+    }
+}
+/// an (opcode, logical operand index) that takes kind K directly
+pub fn site_of_kind(g: &Gram, kind: &str) -> Option<(u32, usize)> {
+    for (&op, ig) in &g.insts {
+        if g.has_context_kind(op) { continue; }
+        if let Some(idx) = ig.ops.iter().position(|o| o.k == kind) { return Some((op, idx)); }
+    }
+    None
+}
+
 pub struct Gen<'g> {
     pub g: &'g Gram,
 }
@@ -273,7 +317,8 @@ impl<'g> Gen<'g> {
                 self.signature(&sig, rng, ctx, &Plan::random(), 0, 1, 1, out);
             }
             _ => {
-                let v = forced.unwrap_or_else(|| self.enum_value(kind, rng));
+                let fp = if forced.is_none() { FORCE_PARAM.with(|f| { let mut f = f.borrow_mut(); if f.as_ref().map(|x| x.0 == kind).unwrap_or(false) { f.take().map(|x| x.1) } else { None } }) } else { None };
+                let v = forced.or(fp).unwrap_or_else(|| self.enum_value(kind, rng));
                 out.push(SOp::one(kind, v));
                 for p in self.params_of(kind, v) {
                     self.operand(&p, rng, ctx, None, 1, 1, out);
@@ -328,7 +373,7 @@ impl<'g> Gen<'g> {
         let needs_sel = g.ops.iter().any(|o| o.k == "PairLiteralIntegerIdRef");
         if !g.ops.is_empty() && g.ops[0].k == "IdResultType" {
             lead = 1;
-            if needs_lit && rng.chance(5, 6) {
+            if needs_lit && !NO_CTX.with(|c| c.get()) && rng.chance(5, 6) {
                 let (t, w) = if ctx.types.is_empty() || rng.chance(1, 2) { ctx.declare_type(rng) } else { *rng.pick(&ctx.types) };
                 rt = Some(t);
                 rt_words = w;
@@ -344,7 +389,7 @@ impl<'g> Gen<'g> {
         let mut plan2 = Plan { optionals: plan.optionals, variadic: plan.variadic, forced: plan.forced.clone() };
         if needs_sel {
             // OpSwitch: the selector is the first operand; give it a tracked type most of the time
-            if rng.chance(5, 6) {
+            if !NO_CTX.with(|c| c.get()) && rng.chance(5, 6) {
                 let (v, w) = if ctx.values.is_empty() || rng.chance(1, 2) { ctx.define_value(rng) } else { *rng.pick(&ctx.values) };
                 plan2.forced.insert(lead, v);
                 sel_words = w;
